@@ -9,7 +9,7 @@ import tinsinfo, C01
 EXPLANATION = ('For every scalar / address accessor pair f of every layer class K (discovered from the headers): object = K(symbolic header bytes) (arbitrary prior state), '
                'before = every getter of K; k.f(v) with v arbitrary over the argument type; then either value_too_large was thrown and v does not fit the field (sub-byte / odd-width '
                'fields), or f() == v and every other getter returns what it returned before.  Exhaustive in v and in the prior state.')
-BOUNDS = {'quick': 'all discovered (class, field) pairs (one query per class, the field index is symbolic); header bytes symbolic; one inner-less object per query', 'thorough': 'same (the space is covered exhaustively per pair)'}
+BOUNDS = {'quick': 'every discovered (class, field) pair of the 25 classes in QUICK_CLASSES, one query per pair; header bytes symbolic; one inner-less object per query', 'thorough': 'every discovered pair of all classes (adds ICMPv6 and the 802.11 management / data / control subclasses)'}
 OUTSIDE = 'serialized bit positions against the protocol specifications (no independent layout table was transcribed); fields without a getter; vector/string valued fields; derived fields (C05)'
 ASSUMPTIONS = ['prior states are those reachable by parsing a header (every header byte symbolic, subject to the constructor accepting it)']
 NRAND = {'quick': 20, 'thorough': 200}
@@ -17,10 +17,11 @@ NRAND = {'quick': 20, 'thorough': 200}
 CHUNK = 1   # fields per query (a symbolic field index over several fields made the formula larger than separate queries: measured)
 # storage that is shared by design (read from the sources: same header bytes / one setter maintains the other)
 MANUAL_ALIAS = {'RTP': [{'padding_size', 'padding_bit'}], 'ICMP': [{'original_timestamp', 'address_mask'}], 'DHCPv6': [{'transaction_id', 'hop_count', 'msg_type'}]}
-# quick tier: every non-802.11 class plus one representative of each 802.11 family (the management / data / control subclasses inherit
-# the same accessor code; all of them are in the thorough tier)
-QUICK_CLASSES = {'ARP', 'BootP', 'DHCPv6', 'DNS', 'Dot1Q', 'Dot3', 'RC4EAPOL', 'RSNEAPOL', 'EthernetII', 'ICMP', 'ICMPv6', 'IP', 'IPSecAH', 'IPSecESP', 'IPv6', 'Loopback', 'MPLS',
-                 'PPPoE', 'RTP', 'SLL', 'SNAP', 'STP', 'TCP', 'UDP', 'Dot11', 'Dot11Beacon', 'Dot11RTS', 'Dot11BlockAckRequest'}
+# quick tier: every non-802.11 class except ICMPv6, plus the 802.11 base class and one control frame (the management / data / control subclasses inherit
+# the same accessor code).  Dot11Beacon (85 s per field), Dot11BlockAckRequest and ICMPv6 were in the quick tier until a fresh-copy run of it took more than
+# 900 s; they, and every other class, are in the thorough tier
+QUICK_CLASSES = {'ARP', 'BootP', 'DHCPv6', 'DNS', 'Dot1Q', 'Dot3', 'RC4EAPOL', 'RSNEAPOL', 'EthernetII', 'ICMP', 'IP', 'IPSecAH', 'IPSecESP', 'IPv6', 'Loopback', 'MPLS',
+                 'PPPoE', 'RTP', 'SLL', 'SNAP', 'STP', 'TCP', 'UDP', 'Dot11', 'Dot11RTS'}
 SKIP_CLASSES = {'RadioTap', 'DHCP', 'RSNEAPOL'}   # RSNEAPOL: the shortest accepted buffer already carries a symbolic-length key (no verdict in 300 s);   # RadioTap: all real fields are option-backed (C11); DHCP: BootP fields are checked on BootP, the rest is option-backed (C04)
 INT_T = {'uint8_t': 8, 'uint16_t': 16, 'uint32_t': 32, 'uint64_t': 64, 'int8_t': 8, 'int16_t': 16, 'int32_t': 32, 'int64_t': 64}
 SKIP_FIELDS = {('Dot1Q', 'append_padding'), }
